@@ -5,6 +5,10 @@ from hypothesis import strategies as st
 
 from ..common import CaseInfo, Violation
 from ..market_machine import market_cases
+from ..oracles import Analysis, check_c04_sim
+from ..simharness import CancelLog, OrderLog, run_case
+from ..strategies import sim_cases
+from ._sim_common import summarize
 from ._market_common import frac, fuzz_part, make_check
 
 warnings.simplefilter("ignore")
@@ -57,7 +61,53 @@ def ctor_check(case):
     return CaseInfo(nontrivial=True, classes=["valid"], sample=case)
 
 
+def _sim_strategy(tier):
+    big = tier == "thorough"
+    return sim_cases(illegal=True, builtin=True, steps=(1, 20) if big else (1, 8), agents_per_group=(1, 4), n_markets=(1, 3))
+
+
+def sim_check(case):
+    """whole simulations; in about a third of them a scripted agent commits an illegal action (re-submission of an accepted
+    order object, an order under another agent's id, a cancel of another agent's order), which must be refused."""
+    res = run_case(case, raise_crash=True)
+    tr = res.trace
+    classes = []
+    if tr.illegal is not None and res.refused is None:
+        raise Violation("C04.illegal_action_accepted", f"a scripted agent returned an illegal action ({tr.illegal}) and the run went on without refusing it")
+    if res.refused is not None:
+        if not isinstance(res.refusal_exc, (ValueError, AttributeError)):
+            raise Violation("C04.refusal_kind", f"{res.refused} was refused with {type(res.refusal_exc).__name__}: {res.refusal_exc}")
+        classes.append("refused_" + res.refused)
+        # nothing of the illegal action may have been accepted
+        last = [kw for k, kw in tr.items if k == "consult"][-1]
+        seen = {}
+        for k, kw in tr.items:
+            if k == "log.write" and isinstance(kw["log"], OrderLog):
+                key = (kw["log"].market_id, kw["log"].order_id)
+                seen[key] = seen.get(key, 0) + 1
+                if kw["log"].agent_id != last["agent"] and res.refused == "forged_agent_id":
+                    pass
+        if any(n > 1 for n in seen.values()):
+            raise Violation("C04.accepted_twice", f"an order was accepted twice although the run refused ({res.refused})")
+        if res.refused == "cancel_of_foreign_order":
+            for o in last["raw"]:
+                if not isinstance(o, type(last["raw"][0])):
+                    continue
+            foreign = [c for c in last["raw"] if not hasattr(c, "volume") and c.order.agent_id != last["agent"]]
+            for c in foreign:
+                if c.placed_at is not None:
+                    raise Violation("C04.foreign_cancel_accepted", "a cancel of another agent's order was marked accepted")
+        A = Analysis(case, res)
+        return CaseInfo(nontrivial=True, classes=classes, steps=len(A.order_logs), sample={"case": summarize(case), "refused": res.refused})
+    A = Analysis(case, res)
+    st_ = check_c04_sim(A)
+    nt = bool(st_.get("partial_then_cancel") or st_.get("partial_then_expiry") or st_.get("filled_in_last_step_of_life"))
+    classes += [k for k in ("partial_then_cancel", "partial_then_expiry", "filled_in_last_step_of_life", "fills") if st_.get(k)]
+    return CaseInfo(nontrivial=nt, classes=classes, steps=st_["orders"], sample={"case": summarize(case), "stats": st_})
+
+
 PARTS = {
+    "sim": {"check": sim_check, "strategy": _sim_strategy, "budget": {"quick": 3000, "thorough": 40000}},
     "machine": {"check": make_check({"C04"}, _nt), "strategy": _strategy, "budget": {"quick": 3000, "thorough": 100000}},
     "ctor": {"check": ctor_check, "strategy": lambda tier: ctor_cases, "budget": {"quick": 2000, "thorough": 20000}},
 }
@@ -76,4 +126,8 @@ def vacuity(merged, tier):
                      ("foreign_refused", 0.08), ("cancel_of_dead_order", 0.08)):
         if frac(merged, "machine", cls) < lim:
             return f"class {cls} below {lim:.0%} of histories"
+    for cls, lim in (("refused_resubmit", 0.01), ("refused_forged_agent_id", 0.01), ("refused_cancel_of_foreign_order", 0.01), ("partial_then_cancel", 0.03),
+                     ("partial_then_expiry", 0.03)):
+        if frac(merged, "sim", cls) < lim:
+            return f"sim: class {cls} below {lim:.0%} of runs"
     return None
